@@ -21,5 +21,8 @@ RULES = [
     ("C07.emptywalk", lambda c, r: lfht.rule_emptywalk(c, r, "C07.emptywalk")),
     ("C07.partition", lambda c, r: c09.rule_partition(c, r, "C07.partition")),
     ("C07.mmapargs", lambda c, r: lfht.rule_mmapargs(c, r, "C07.mmapargs")),
+    # a node linked in front of the bucket node of its own hash is never found by the unlink that del / replace start from that bucket
+    ("C07.unique", lambda c, r: lfht.rule_unique(c, r, "C07.unique")),
+    ("C07.wq", lambda c, r: __import__("sa.rules.wq", fromlist=["x"]).rule_workqueue(c, r, "C07.wq")),   # the work queue that executes resizes / deferred destroys
 ]
 FLOORS = {}
